@@ -219,6 +219,68 @@ theorem resizeCore_length (a b : Int) (v : List XVal) (ha : a ≤ v.length)
     ((shiftEnd b (shiftStart a v)).length : Int) = (v.length : Int) - a + b := by
   rw [shiftEnd_length b _ (by rw [shiftStart_length a v ha]; exact hb), shiftStart_length a v ha]
 
+/-! ## NetCDF axis, parameters, ids -/
+
+theorem minList_le (l : List Int) (m : Int) (h : minList l = some m) : ∀ x ∈ l, m ≤ x := by
+  induction l generalizing m with
+  | nil => cases h
+  | cons y l ih =>
+    intro x hx
+    simp only [minList] at h
+    cases hm : minList l with
+    | none =>
+      rw [hm] at h
+      simp only [Option.some.injEq] at h
+      cases l with
+      | nil =>
+        simp only [List.mem_cons, List.not_mem_nil, or_false] at hx
+        omega
+      | cons z l' =>
+        simp only [minList] at hm
+        cases h2 : minList l' <;> rw [h2] at hm <;> cases hm
+    | some m' =>
+      rw [hm] at h
+      simp only [Option.some.injEq] at h
+      rcases List.mem_cons.1 hx with rfl | hx
+      · split at h <;> omega
+      · have := ih m' hm x hx
+        split at h <;> omega
+
+theorem minList_some_of_ne (l : List Int) (h : l ≠ []) : ∃ m, minList l = some m := by
+  cases l with
+  | nil => exact absurd rfl h
+  | cons y l =>
+    simp only [minList]
+    cases minList l <;> simp
+
+theorem findPar_setPar_same (p : Nat) (v : PVal) (pars : List (Nat × PVal)) (old : PVal)
+    (h : findPar p pars = some old) : findPar p (setPar p v pars) = some v := by
+  induction pars with
+  | nil => cases h
+  | cons x l ih =>
+    obtain ⟨k, w⟩ := x
+    simp only [findPar, setPar] at h ⊢
+    by_cases hk : k = p
+    · simp [hk, findPar]
+    · simp only [hk, if_false] at h ⊢
+      simp only [findPar, hk, if_false]
+      exact ih h
+
+theorem findPar_setPar_other (p p' : Nat) (hp : p' ≠ p) (v : PVal) (pars : List (Nat × PVal)) :
+    findPar p' (setPar p v pars) = findPar p' pars := by
+  induction pars with
+  | nil => rfl
+  | cons x l ih =>
+    obtain ⟨k, w⟩ := x
+    simp only [setPar]
+    by_cases hk : k = p
+    · subst hk
+      simp only [if_true, findPar]
+      have : ¬ k = p' := fun h => hp h.symm
+      simp [this]
+    · simp only [hk, if_false, findPar]
+      rw [ih]
+
 /-! ## association lists -/
 
 theorem lookup_map_vals (f : List XVal → List XVal) (v : Nat) (sl : Slot) :
